@@ -82,6 +82,7 @@ SHAPE_DOC = {
     31: "with openFiler(..) as f: f.reopen(temp=not temp, reuse)",
     32: "shape 30 + reopen(), close(clear=True)",
     33: "shape 31 + reopen(), close(clear=True)",
+    34: "with openFiler(..): raise ValueError  (the body of the with statement fails: the exit must close and clear all the same)",
     40: "new(name, base, temp, reopen=False), FilerDoer(filer).enter(temp=t), .exit()   t = None/True/False from (reuse, clear)",
     41: "shape 40 + reopen(), close(clear=True)",
     42: "shape 40 with the filer closed (without clear) by somebody else between FilerDoer.enter and FilerDoer.exit",
@@ -91,8 +92,8 @@ SHAPE_DOC = {
     52: "shape 0 with RELATIVE class-level head directories, the working directory changed between init and close(clear=True)",
 }
 BLOCKED = (50, 51)
-QUICK_SHAPES = (0, 1, 10, 11, 12, 20, 30, 31, 40, 42, 43, 50, 52)
-THOROUGH_SHAPES = (0, 1, 2, 3, 10, 11, 12, 20, 21, 30, 31, 32, 33, 40, 41, 42, 43, 50, 51, 52)
+QUICK_SHAPES = (0, 1, 10, 11, 12, 20, 30, 31, 34, 40, 42, 43, 50, 52)
+THOROUGH_SHAPES = (0, 1, 2, 3, 10, 11, 12, 20, 21, 30, 31, 32, 33, 34, 40, 41, 42, 43, 50, 51, 52)
 DOER_TEMP = {(0, 0): None, (0, 1): True, (1, 0): False}
 
 
@@ -133,6 +134,8 @@ def plan(flags, shape):
     if shape in (20, 21):
         steps = [("init", {}), ("reopen", {"temp": not temp, "clear": clear, "reuse": reuse}), ("close", {"clear": True})]
         return steps + (ROUND2 if shape == 21 else [])
+    if shape == 34:
+        return [("openFiler.enter", {}), ("openFiler.exit-raise", {})]
     if shape in (30, 31, 32, 33):
         steps = [("openFiler.enter", {})]
         if shape in (31, 33):
@@ -287,7 +290,7 @@ def modename(t):
 
 OPENERS = ("init", "new", "openFiler.enter", "FilerDoer.enter")        # a FilerError here rejects the configuration
 PLANT_AFTER = ("init", "reopen", "openFiler.enter", "FilerDoer.enter", "remake")
-EXITS = {"openFiler.exit": "openFiler", "FilerDoer.exit": "FilerDoer"}
+EXITS = {"openFiler.exit": "openFiler", "openFiler.exit-raise": "openFiler", "FilerDoer.exit": "FilerDoer"}
 
 
 def run_case(top, name, base, flags, shape):
@@ -368,6 +371,12 @@ def run_case(top, name, base, flags, shape):
                     filer = cm.__enter__()
                 elif op == "openFiler.exit":
                     cm.__exit__(None, None, None)
+                elif op == "openFiler.exit-raise":
+                    boom = ValueError("the body of the with statement failed")
+                    try:
+                        cm.__exit__(ValueError, boom, None)       # hands the body's exception to the context manager
+                    except ValueError:
+                        pass
                 elif op == "FilerDoer.enter":
                     doer = filing.FilerDoer(filer=filer)
                     doer.enter(temp=args["temp"])
@@ -423,6 +432,13 @@ def run_case(top, name, base, flags, shape):
             if err is not None:
                 stats["raised_" + type(err).__name__] = stats.get("raised_" + type(err).__name__, 0) + 1
 
+            # -- a temp instance lives below the class's TempHeadDir
+            if ta and err is None and op in PLANT_AFTER and newpath is not None and not inside(newpath, TMP):
+                viols.append(("temp-outside-tempheaddir", "%s: the temp resource is not below TempHeadDir" % where))
+                stray = filer.path if filer is not None else None
+                if stray and os.path.isabs(stray) and not stray.startswith(top + os.sep) and TEMPRE.search(stray):
+                    m = TEMPRE.search(stray)
+                    shutil.rmtree(stray[:m.end()], ignore_errors=True)      # do not litter the machine's temp directory
             # -- clause 1: everything created or deleted lies inside the own head directory / the own temp directory
             badc = [p for p in created if not in_mode(p, ta)]
             badd = [p for p in deleted if not (in_mode(p, tb) or in_mode(p, ta) or p in legit)]
@@ -444,7 +460,7 @@ def run_case(top, name, base, flags, shape):
                     viols.append(("foreign-altered:%s:%s" % (op, modename(tb)), "%s: entries altered: %s" % (where, ", ".join(norm(p) for p in foreign[:4]))))
             # -- clause 2: steps that clear
             clears = ((op == "close" and args["clear"]) or (op == "reopen" and args.get("clear"))
-                      or (op == "openFiler.exit" and (tb or clear)) or (op == "FilerDoer.exit" and tb))
+                      or (op.startswith("openFiler.exit") and (tb or clear)) or (op == "FilerDoer.exit" and tb))
             if clears:
                 own = oldpath
                 outside = [p for p in deleted if not (under(p, own) or (op == "reopen" and under(p, newpath))
